@@ -882,3 +882,16 @@ func (a *FA) InductionOf(idx ssa.Value, use *ssa.BasicBlock) (*LoopIV, bool) {
 	}
 	return iv, true
 }
+
+// AtomValueOfLin: the representative value of a linear form that is exactly one atom with coefficient 1.
+func (a *FA) AtomValueOfLin(L Lin) ssa.Value {
+	if len(L.T) != 1 || L.K != 0 {
+		return nil
+	}
+	for atom, coef := range L.T {
+		if coef == 1 {
+			return a.AtomValue(atom)
+		}
+	}
+	return nil
+}
